@@ -78,6 +78,8 @@ def enc(x):
 def dec(t):
     if t is None:
         return None
+    if t[0] == 'x':                 # a value the library must refuse
+        return tuple(t[1]) if isinstance(t[1], list) else t[1]
     return t[1] if t[0] == 's' else bytes.fromhex(t[1])
 
 
@@ -125,8 +127,9 @@ def gen_value(rng, n=None, plain=False):
     if kind < 0.12 and n >= 2:
         # leading / trailing whitespace and control characters: verbatim
         # means verbatim
-        return rng.choice((' ', '\t', '\n', '\x00')) + 'v' * (n - 2) + \
-            rng.choice((' ', '\n', '\r', '\x00'))
+        # (a byte-order mark is a character like any other)
+        return rng.choice((' ', '\t', '\n', '\x00', '\ufeff', '\ufeff')) + \
+            'v' * (n - 2) + rng.choice((' ', '\n', '\r', '\x00', '\ufeff'))
     if kind < 0.45:
         return 'v' * n
     if kind < 0.6:
@@ -184,6 +187,7 @@ def generate(seed, idx, tier):
     for _ in range(rng.randrange(1, 7)):
         upd = []
         seen = set()
+        before_model = dict(model)
         nkeys = rng.choice((1, 1, 1, 2, 2, 3, 4))
         for _ in range(nkeys):
             r = rng.random()
@@ -221,8 +225,27 @@ def generate(seed, idx, tier):
                 upd.append([enc(key), enc(val)])
                 model[as_bytes(key)] = as_bytes(val)
                 seen.add(as_bytes(key))
-        updates.append({'kv': upd,
-                        'flag': rng.choice((None, None, 'explicit'))})
+        u = {'kv': upd, 'flag': rng.choice((None, None, 'explicit'))}
+        r = rng.random()
+        if r < 0.06:
+            # an update the library must refuse (a value or key that is
+            # neither text, bytes nor None) in the middle of valid entries:
+            # whatever it does, the file has to stay as it was
+            badv = rng.choice((5, 1.5, True, ['a', 1], {'a': 1}))
+            if rng.random() < 0.8:
+                ent = [enc(gen_key(rng, set(model))), ['x', badv]]
+            else:
+                ent = [['x', rng.choice((5, 2.5))], enc('v')]
+            upd.insert(rng.randrange(0, len(upd) + 1), ent)
+            u['bad'] = True
+            # none of its entries takes effect
+            model.clear()
+            model.update(before_model)
+        elif r < 0.2:
+            # carried out by a different process: nothing this process has
+            # memoised about the file is refreshed by it
+            u['other'] = True
+        updates.append(u)
     return {'prop': PROP, 'seed': seed, 'idx': idx, 'tier': tier,
             'target': target, 'initial': list(initial.values()),
             'updates': updates, 'nrows': rng.randrange(1, 20),
@@ -363,6 +386,8 @@ def _execute(case, fs, res, cnt, probes, bump, violation, fw,
             for k, v in upd['kv']:
                 arg[dec(k)] = dec(v)
                 types.add((k[0], v[0] if v else 'N'))
+                if upd.get('bad'):
+                    continue
                 kb = as_bytes(dec(k))
                 if v is None:
                     model.pop(kb, None)
@@ -371,19 +396,49 @@ def _execute(case, fs, res, cnt, probes, bump, violation, fw,
             fs.hits = []
             fs.floors = {path: rb['start']}
             seq0 = fs.seq
-            try:
+            def call():
                 if upd.get('flag') == 'explicit':
                     update_file_custom_metadata(path, arg,
                                                 is_metadata_file=is_meta)
                 else:
                     update_file_custom_metadata(path, arg)
+            try:
+                if upd.get('other'):
+                    out = D.in_other_process(fs, call)
+                    bump(probes, 'update_by_another_process')
+                    if out[0] == 'exc':
+                        raise RuntimeError('%s: %s' % out[1:])
+                else:
+                    call()
             except Exception as e:
+                if upd.get('bad'):
+                    bump(probes, 'invalid_update_refused')
+                    if bytes(fs.files[path]) != before:
+                        ra = parse(bytes(fs.files[path]), is_meta)
+                        violation('C16/refused-update-changed-file',
+                                  'update %d was refused (%s: %s) but the '
+                                  'file is not what it was: %s'
+                                  % (ui, type(e).__name__, str(e)[:80],
+                                     '; '.join(ra['problems'])
+                                     or 'still valid, other bytes'), ui)
+                        break
+                    continue
                 violation('C16/valid-update-raised',
                           'update %d %r: %s: %s' % (ui, list(arg)[:4],
                                                     type(e).__name__, e), ui)
                 break
             finally:
                 fs.floors = {}
+            if upd.get('bad'):
+                # accepted after all (coerced?): nothing to model it with;
+                # the file must at least still be a valid one
+                bump(probes, 'invalid_update_accepted')
+                ra = parse(bytes(fs.files[path]), is_meta)
+                if ra['problems']:
+                    violation('C16/invalid-file-after-update',
+                              'update %d (with a non-text value, accepted): '
+                              '%s' % (ui, '; '.join(ra['problems'])), ui)
+                break
             res['steps'] += fs.seq - seq0
             after = bytes(fs.files[path])
             ra = parse(after, is_meta)
@@ -475,7 +530,8 @@ def _execute(case, fs, res, cnt, probes, bump, violation, fw,
 def _short(upd):
     out = []
     for k, v in upd['kv']:
-        out.append([k[1][:12], None if v is None
+        out.append([str(k[1])[:12], None if v is None
+                    else 'refused:%r' % (v[1],) if v[0] == 'x'
                     else '%s:%d' % (v[0], len(dec(v)))])
     return out
 
